@@ -41,6 +41,9 @@ def literal_cases(rng, thorough):
                 if v.denominator != 1 or v > 2 * 1024 ** 4:
                     continue
                 out.append((n + cv, int(v)))
+    # byte counts beyond 2^53, where neighbouring sizes are the same double: the comparison is still exact
+    out += [("8192t", 2 ** 53), ("8192TiB", 2 ** 53), ("8388608g", 2 ** 53), ("9007199254740992", 2 ** 53), ("9007199254740993", 2 ** 53 + 1),
+            ("9007199254740994b", 2 ** 53 + 2), ("1048576t", 2 ** 60), ("1152921504606846977", 2 ** 60 + 1), ("9007199254741kb", 9007199254741000)]
     return out
 
 
